@@ -660,11 +660,48 @@ pub mod prelude {
     // std::str::from_utf8: succeeds exactly on valid UTF-8 and then denotes the same bytes
     #[verifier::opaque]
     pub open spec fn valid_utf8(b: Seq<u8>) -> bool { vstd::utf8::valid_utf8(b) }
+    /// the length of the longest prefix that is valid UTF-8 (what `Utf8Error::valid_up_to` documents)
+    pub open spec fn utf8_valid_up_to(b: Seq<u8>) -> int
+        decreases b.len()
+    {
+        if b.len() == 0 || valid_utf8(b) { b.len() as int } else { utf8_valid_up_to(b.drop_last()) }
+    }
+    /// invalid only because the input ends inside a character: some continuation makes it valid
+    /// (what `Utf8Error::error_len() == None` documents: "the end of the input was reached unexpectedly")
+    pub open spec fn utf8_truncated(b: Seq<u8>) -> bool {
+        !valid_utf8(b) && exists|t: Seq<u8>| valid_utf8(b + t)
+    }
+    pub uninterp spec fn utf8_err_valid_up_to(e: std::str::Utf8Error) -> usize;
+    pub uninterp spec fn utf8_err_len_none(e: std::str::Utf8Error) -> bool;
+    // ASSUMED (std documentation of from_utf8 / Utf8Error): the error names the longest valid prefix and tells
+    // whether the input merely ends inside a character
     pub assume_specification<'a>[ std::str::from_utf8 ](b: &'a [u8]) -> (r: Result<&'a str, std::str::Utf8Error>)
-        ensures r is Ok == valid_utf8(b@), r matches Ok(s) ==> sb(s) == b@;
-    // Utf8Error accessors: no specification beyond their types (their results are unconstrained)
-    pub assume_specification[ std::str::Utf8Error::error_len ](e: &std::str::Utf8Error) -> (r: Option<usize>);
-    pub assume_specification[ std::str::Utf8Error::valid_up_to ](e: &std::str::Utf8Error) -> (r: usize);
+        ensures r is Ok == valid_utf8(b@), r matches Ok(s) ==> sb(s) == b@,
+            r matches Err(e) ==> utf8_err_valid_up_to(e) as int == utf8_valid_up_to(b@) && utf8_err_len_none(e) == utf8_truncated(b@);
+    pub assume_specification[ std::str::Utf8Error::error_len ](e: &std::str::Utf8Error) -> (r: Option<usize>)
+        ensures r is None == utf8_err_len_none(*e);
+    pub assume_specification[ std::str::Utf8Error::valid_up_to ](e: &std::str::Utf8Error) -> (r: usize)
+        ensures r == utf8_err_valid_up_to(*e);
+    /// PROVED: the longest valid prefix is a valid prefix
+    pub proof fn lemma_utf8_valid_up_to(b: Seq<u8>)
+        ensures 0 <= utf8_valid_up_to(b) <= b.len(), valid_utf8(b.subrange(0, utf8_valid_up_to(b))),
+            !valid_utf8(b) ==> utf8_valid_up_to(b) < b.len()
+        decreases b.len()
+    {
+        if b.len() == 0 {
+            assert(b.subrange(0, 0) =~= b);
+            reveal(valid_utf8);
+            assert(b =~= Seq::<u8>::empty());
+            vstd::utf8::encode_utf8_valid_utf8(Seq::<char>::empty());
+            assert(vstd::utf8::encode_utf8(Seq::<char>::empty()) =~= Seq::<u8>::empty()) by { reveal_with_fuel(vstd::utf8::encode_utf8, 1); }
+        } else if valid_utf8(b) {
+            assert(b.subrange(0, b.len() as int) =~= b);
+        } else {
+            lemma_utf8_valid_up_to(b.drop_last());
+            let v = utf8_valid_up_to(b.drop_last());
+            assert(b.drop_last().subrange(0, v) =~= b.subrange(0, v));
+        }
+    }
     // every &str holds valid UTF-8
     /// PROVED: a &str is the encoding of its chars (vstd), and encodings are valid UTF-8
     pub broadcast proof fn lemma_str_valid_utf8(a: &str)
